@@ -157,6 +157,13 @@ def corr_sequences(ck, rng):
                 ops.append(["linear_transform", v.tolist(), i]); terms.append(f"OLin Q {vlit(v)} {mlit(R[i])}")
             if k != 5 and (cur is prev) != (not cp):
                 identity_ok = False
+            # derived views (rotation matrix, affine matrices) are read between operations and must follow every later (in-place) change
+            if rng.random() < 0.5:
+                Mr = cur.rotator.as_matrix()[0]
+                src_ = np.array([[1.0, 2.0, 3.0]])
+                fw, bw = cur.affine_matrix(src_)[0], cur.affine_matrix(src_, inverse=True)[0]
+                if not (np.allclose(cur.matrix()[0], Mr, atol=1e-6) and np.allclose(fw[:3, :3], Mr, atol=1e-6) and np.allclose(bw[:3, :3], Mr.T, atol=1e-6)):
+                    identity_ok = False
             opn[ops[-1][0] + ("" if (k == 5 or cp) else "[in-place]")] = opn.get(ops[-1][0] + ("" if (k == 5 or cp) else "[in-place]"), 0) + 1
         # copy=True must leave the original untouched
         untouched = np.array_equal(mol.pos, orig_pos) and np.allclose(mol.rotator.as_matrix(), orig_mat)
